@@ -730,3 +730,9 @@ def main(args=None):
     except VelaError as e:
         print(e.data)
         return 1
+    except RecursionError:
+        print(
+            "Error: Compilation failed due to exceeding the maximum recursion depth.\n"
+            'Try increasing the maximum recursion depth with the "--recursion-limit" option.'
+        )
+        return 1
